@@ -526,6 +526,37 @@ def stub_bodies(text):
     return ''.join(out)
 
 
+def allow_no_decreases(text):
+    toks = lex(text)
+    edits = []
+    for i_fn in find_fns(toks):
+        k = i_fn
+        j = i_fn - 1
+        quals = []
+        while j >= 0:
+            t = toks[j]
+            if not t.code:
+                j -= 1
+                continue
+            if t.text in ('pub', 'crate', '(', ')', 'const', 'unsafe', 'super', 'in', 'open', 'closed', 'spec', 'proof', 'broadcast', 'uninterp'):
+                k = j
+                quals.append(t.text)
+                j -= 1
+                continue
+            break
+        if 'spec' in quals or 'proof' in quals:
+            continue
+        edits.append(toks[k].start)
+    out = []
+    pos = 0
+    for e in sorted(edits):
+        out.append(text[pos:e])
+        out.append('#[verifier::exec_allows_no_decreases_clause] ')
+        pos = e
+    out.append(text[pos:])
+    return ''.join(out)
+
+
 # ------------------------------------------------------------------ instantiation (R5)
 
 def instantiate_generic(text, param, ty):
@@ -755,7 +786,7 @@ class Emitted:
         self.lost = 0
 
 
-def build(entries, verify_units, repo=None, extra_false_ensures=False):
+def build(entries, verify_units, repo=None, extra_false_ensures=False, no_body_hints=()):
     repo = repo or Repo()
     em = Emitted()
     for e in entries:
@@ -766,16 +797,24 @@ def build(entries, verify_units, repo=None, extra_false_ensures=False):
         for L in located:
             log = {}
             new_code = normalize_item(L.text, log)
+            if e.opts.get('rename'):
+                # a second, differently named copy of the same item (e.g. a safety-only contract next to an assumed functional one)
+                old_name, new_name = e.opts['rename'].split('->')
+                new_code = re.sub(r'\bfn\s+%s\b' % re.escape(old_name.strip()), 'fn ' + new_name.strip(), new_code, count=1)
             merged, hoisted, drift, lost = merge(code, anns, new_code)
             if lost and drift == 0:
                 raise GenError('%s: %d annotation(s) cannot be placed although the code is unchanged (contract file error)' % (e.key, lost))
             if lost and any(c.split()[0] in ('requires', 'ensures') for c in merge.last_lost_clauses):
                 # a contract clause (not a proof hint) lost its anchor: never verify silently without it
                 raise GenError('%s: contract clause lost its anchor after a source change: %s' % (e.key, merge.last_lost_clauses))
-            if lost:
-                # a hint could not be placed: later hints may depend on its ghost variables, so all
-                # body-level hints of this item are dropped; contracts (fn-level clauses) stay
+            if lost or (drift and e.key in no_body_hints):
+                # a hint could not be placed (or, on retry, the changed item did not compile with its hints): later
+                # hints may depend on ghost variables of lost ones, so all body-level hints of this item are dropped;
+                # contracts (fn-level clauses) stay
                 merged, hoisted, drift, lost = merge(code, anns, new_code, body_hints=False)
+                lost = max(lost, 1)
+                # loops lost their decreases clauses with the hints: termination of this item is then not checked
+                merged = allow_no_decreases(merged)
             variants = [(merged, hoisted, '')]
             if e.inst:
                 par, tys = e.inst
